@@ -46,6 +46,8 @@ class Cfg:
     min_plain_cols: int = 1
     force_str_first_plain: bool = False
     text_lines: int = 3
+    rel_width_floats: bool = False        # col_rel_width drawn from [0.2, 10] instead of a small menu
+    col_width_range: tuple | None = None  # page col_width drawn from this range (inches)
     group_by_p: int = 3                   # out of 10
     noncontig: float = 0.0                # probability that group_by keys are made non-contiguous
 
@@ -263,6 +265,8 @@ def page_spec(draw, cfg: Cfg, nrow=None):
             page["margin"] = [draw(st.sampled_from([0.5, 0.75, 1.0, 1.25, 1.33, 0.79])) for _ in range(6)]
         if g >= 8:
             page["col_width"] = draw(st.sampled_from([4.0, 5.5, 6.25, 7.0, 9.0]))
+    if cfg.col_width_range is not None and draw(st.integers(0, 9)) < 7:
+        page["col_width"] = round(draw(st.floats(*cfg.col_width_range)), 3)
     if cfg.page_borders and draw(st.integers(0, 9)) < 3:
         page["border_first"] = draw(st.sampled_from(BORDER_STYLES))
         page["border_last"] = draw(st.sampled_from(BORDER_STYLES))
@@ -273,19 +277,22 @@ def page_spec(draw, cfg: Cfg, nrow=None):
 
 
 @st.composite
-def header_specs(draw, cfg: Cfg, ndisp, mode=None):
+def header_specs(draw, cfg: Cfg, ndisp, mode=None, sec_tag=""):
     mode = mode or draw(st.sampled_from(cfg.header_modes))
     if mode in ("default", "none"):
         return mode, mode
     rows = []
     if mode == "multi":
         k = draw(st.integers(1, max(1, min(3, ndisp))))
-        top = {"text": [f"@H0.{c}" for c in range(k)], "col_rel_width": [draw(st.integers(1, 4)) for _ in range(k)]}
+        top = {"text": [f"@H{sec_tag}0.{c}" for c in range(k)], "col_rel_width": [draw(st.integers(1, 4)) for _ in range(k)]}
         rows.append(top)
     r = len(rows)
-    h = {"text": [draw(tag_text(f"@H{r}.{c}", cfg, 4)) for c in range(ndisp)]}
+    h = {"text": [draw(tag_text(f"@H{sec_tag}{r}.{c}", cfg, 4)) for c in range(ndisp)]}
     if mode == "explicit_w":
-        h["col_rel_width"] = [draw(st.sampled_from([0.5, 1, 1.5, 2, 3])) for _ in range(ndisp)]
+        if cfg.rel_width_floats:
+            h["col_rel_width"] = [draw(st.floats(0.2, 10.0).map(lambda x: round(x, 3))) for _ in range(ndisp)]
+        else:
+            h["col_rel_width"] = [draw(st.sampled_from([0.5, 1, 1.5, 2, 3])) for _ in range(ndisp)]
     if cfg.attrs:
         for name in ("text_font", "text_font_size", "text_format", "text_color", "text_justification",
                      "border_bottom", "border_top"):
@@ -360,7 +367,15 @@ def table_section(draw, cfg: Cfg, sec_index=0, multi=False):
         body["pageby_header"] = draw(st.booleans())
     if cfg.convert_off_body:
         body["text_convert"] = False
-    if draw(st.integers(0, 9)) < 4:
+    if cfg.rel_width_floats:
+        m = draw(st.integers(0, 9))
+        if m < 6:
+            body["col_rel_width"] = [draw(st.floats(0.2, 10.0).map(lambda x: round(x, 3))) for _ in range(ncol)]
+        elif m < 8:
+            body["col_rel_width"] = [draw(st.integers(1, 10)) for _ in range(ncol)]
+        elif m == 8:
+            body["col_rel_width"] = [draw(st.sampled_from([1, 2.5]))]
+    elif draw(st.integers(0, 9)) < 4:
         body["col_rel_width"] = [draw(st.sampled_from([0.5, 1, 1.5, 2, 3.3])) for _ in range(ncol)]
     if cfg.attrs:
         for k, v in draw(body_attrs(cfg, n, ncol)).items():
@@ -370,7 +385,7 @@ def table_section(draw, cfg: Cfg, sec_index=0, multi=False):
     sec = {"df": {"cols": cols}, "body": body}
     from .recipe import displayed_columns
     ndisp = len(displayed_columns(sec))
-    mode, hs = draw(header_specs(cfg, ndisp))
+    mode, hs = draw(header_specs(cfg, ndisp, sec_tag=f"{sec_index}x" if multi else ""))
     sec["headers"] = hs
     return sec, strat, mode
 
